@@ -169,6 +169,18 @@ def translations():
     out.append(("Gen_velocity", tr, vel.__file__))
 
     # ---- strain_increment over the oracle
+    tr2, _ = utils_translation()
+    out.append(("Gen_velocity_utils", tr2, utils.__file__))
+    return out
+
+
+def utils_translation():
+    """(Translation, Spec) of `strain_increment` over the eigenvalue oracle; also used by
+    specs_pathlines.py, whose traced event closure keeps `_utils.strain_increment(..)` as a call
+    of the generated k_strain_increment."""
+    import pydrex.utils as utils
+
+    S = "scalar"
     tr2 = Translation(utils, [])
     tr2.proxy = UtilsProxy()
     real_si = utils.__dict__["strain_increment"]
@@ -192,5 +204,4 @@ def translations():
         del tr2.specs["strain_increment_oracle"]
     finally:
         del utils.__dict__["strain_increment_oracle"]
-    out.append(("Gen_velocity_utils", tr2, utils.__file__))
-    return out
+    return tr2, spec
